@@ -21,6 +21,11 @@ CHECKS = {
         technique="translation validation, TEAL vs TEAL: SymAVM on the programs emitted under two option settings over one symbolic context, SMT obligation per path pair (verdict, return, effects, user-numbered slots, what each routine leaves on the stack); models replayed concretely",
         text="One recipe compiled under a base setting and under each other (version, scratch_slots, frame_pointers) setting; z3 shows for ALL inputs within the loop/recursion bounds that both emitted programs give the same verdict, return value, ordered effects and final contents of user-numbered scratch slots, and - for pairs differing only in the scratch-slot optimisation - that every routine leaves the same net number of values (and the same top value) when control leaves it. Programs: exhaustive store/load placement family for the optimiser (2 variables, adjacent and non-adjacent loads, main/subroutine/loop/split across a branch, user-numbered, dynamic, MaybeValue temporaries), routine families, control skeletons.",
         note="Trusted: TEAL op semantics (verif/avm), z3. Bounds: loop K, recursion D, byte lengths; program families enumerated to a stated size. The stack clause is checked as net height + top value per routine exit (spilled slots of outer frames legitimately differ between settings)."),
+    "C05": dict(
+        category="model_checking", design_ref="DESIGN.md 3/C05",
+        technique="SMT constraint systems over the CFG of the emitted TEAL (z3 LIA for stack heights and subroutine arities on ALL syntactic paths, loops unbounded; z3 Booleans for stack-cell and slot types) + bounded symbolic execution (SymAVM) for feasible discipline failures, replayed concretely",
+        text="For every emitted program: (1) z3 finds one consistent assignment of a stack height to every instruction and of (arguments, results) to every subroutine that satisfies every CFG edge, every instruction's read depth and every routine exit - i.e. the same height on all paths, no pop below what the routine owns, exactly the declared results at retsub; UNSAT yields the instructions in the core. (2) with those heights, z3 finds a consistent uint64/bytes typing of every stack cell and scratch slot at every instruction against the independent op and field type table; UNSAT = an opcode applied to a definitely wrong type or a join with different types. (3) SymAVM explores all feasible paths within the loop/recursion bounds; any feasible underflow/type/frame failure is a violation with a concrete input. A probe family checks PyTeal's declared TealType of every transaction/global field against the table.",
+        note="Trusted: the langspec table of stack signatures and field types (verif/teal/langspec.py), the CFG construction, z3. The static part is complete for syntactic paths (no loop bound); the dynamic part is bounded (K, D, byte lengths). Programs are the enumerated families; declared arities come from the recipe."),
     "C12": dict(
         category="translation_validation", design_ref="DESIGN.md 3/C12",
         technique="translation validation, TEAL vs TEAL: SymAVM on the pseudo-op program and the assembled-constants program over one symbolic context (template constants symbolic); SMT obligation per path pair incl. the value pushed at every constant-load site in execution order; models replayed concretely",
